@@ -60,21 +60,37 @@ Theorem C19_mup_async_inorder :
             mem_reached St Up apply uid m mon0 cs r.
 Proof. intros; eapply async_inorder; eauto. Qed.
 
-(** Without that hypothesis the statement is FALSE on the model (open hypothesis H1 of DESIGN.md):
-    the KVStore contract orders only operations on the same key; if update 2 becomes durable and the
-    node crashes before update 1 does, recovery applies update 2 to monitor 0 and
-    [ChannelMonitor::update_monitor] panics.  Concrete witness (state = list of applied ids). *)
+(** Asynchronous store in general (the fix for finding H1 makes recovery stop at the first missing
+    update instead of applying a later one): for EVERY durability outcome of every call - nothing of
+    it durable, or its write durable followed by any subset of its lazy removals - recovery never fails
+    and returns one of the in-memory monitors of the history; and if a prefix [cs1] of the history
+    completed entirely (all that can have been reported persisted), the recovered monitor is at least
+    as recent as the in-memory monitor [fin1] after that prefix. *)
+Theorem C19_mup_async :
+  forall (St Up : Type) (apply : St -> Up -> St) (uid : Up -> Z) (maxp m : Z),
+  0 <= maxp ->
+  forall mon0 cs1 cs2 fin1 fin sels1 sels2 gone,
+  hist_ok St Up apply uid m mon0 cs1 fin1 -> hist_ok St Up apply uid m fin1 cs2 fin ->
+  Forall (no_cleanup St Up) (cs1 ++ cs2) ->
+  List.length sels1 = List.length cs1 -> Forall (fun x => x <> SelNone) sels1 ->
+  let s := async_run St Up uid maxp empty_state (CNew m mon0 :: cs1 ++ cs2) (SelWrite [] :: sels1 ++ sels2) in
+  exists r, read_with_updates St Up apply uid (view mkey_eqb s gone) m = ROk r /\
+            In r (mems St Up mon0 (cs1 ++ cs2)) /\ mid fin1 <= mid r.
+Proof. intros; eapply async_reported; eauto. Qed.
+
+(** The history of finding H1 (monitor 0, updates 1 and 2 in flight, only update 2 durable): the model
+    of the FIXED code recovers monitor 0; before the fix [update_monitor] panicked here. *)
 Definition ex_apply (st : list Z) (u : Z) : list Z := u :: st.
 Definition ex_uid (u : Z) : Z := u.
 Definition ex_mon (i : Z) (st : list Z) : monitor (list Z) := {| mid := i; mst := st |}.
 Definition ex_hist : list (call (list Z) Z) :=
   [CNew 7 (ex_mon 0 []); CUpdate 7 (Some 1) (ex_mon 1 [1]); CUpdate 7 (Some 2) (ex_mon 2 [2; 1])].
 
-Theorem C19_mup_async_refuted :
-  per_key_ok (list Z) Z (issued (list Z) Z ex_uid 5 empty_state ex_hist) [true; false; true] [] = true /\
+Example C19_ex_async_gap :
   read_with_updates (list Z) Z ex_apply ex_uid
-    (view mkey_eqb (async_crash_state (list Z) Z ex_uid 5 ex_hist [true; false; true]) []) 7 = RPanic.
-Proof. exact async_refuted. Qed.
+    (view mkey_eqb (async_run (list Z) Z ex_uid 5 empty_state ex_hist [SelWrite []; SelNone; SelWrite []]) []) 7
+  = ROk (ex_mon 0 []).
+Proof. vm_compute. reflexivity. Qed.
 
 (** FilesystemStore's versioned-write protocol (global [next_version], per-path lock entry holding the
     last written version, stale writes skipped, entry removed when no other operation holds it; the
